@@ -148,6 +148,8 @@ def mk_list(items) -> tuple:
                 out.extend(C(x) for x in seq[1])
                 continue
         out.append(it)
+    if len(out) == 1 and out[0][0] == "spread" and out[0][1][0] == "comp":
+        return out[0][1]
     return ("list", tuple(out))
 
 
@@ -184,9 +186,71 @@ def rename_binder(v, d_from: int, d_to: int):
     return tuple(rename_binder(x, d_from, d_to) for x in v)
 
 
+def canon_binders(v, depth: int = 0, mapping: dict | None = None):
+    """Number every binder by its nesting level (alpha-equivalent terms become equal)."""
+    mapping = mapping or {}
+    if not isinstance(v, tuple) or not v:
+        return v
+    t = v[0]
+    if t == "comp" and len(v) == 5 and isinstance(v[1], int):
+        it = canon_binders(v[2], depth, mapping)
+        nd = depth + 1
+        m2 = dict(mapping)
+        m2[v[1]] = nd
+        return ("comp", nd, it, tuple(canon_binders(i, nd, m2) for i in v[3]), tuple(canon_binders(c, nd, m2) for c in v[4]))
+    if t == "fold" and len(v) == 5 and isinstance(v[1], int):
+        it = canon_binders(v[2], depth, mapping)
+        init = canon_binders(v[3], depth, mapping)
+        nd = depth + 1
+        m2 = dict(mapping)
+        m2[v[1]] = nd
+        return ("fold", nd, it, init, canon_binders(v[4], nd, m2))
+    if t in ("bv", "idx", "first", "acc") and len(v) > 1 and isinstance(v[1], int):
+        return (t, mapping.get(v[1], v[1])) + tuple(canon_binders(x, depth, mapping) for x in v[2:])
+    return tuple(canon_binders(x, depth, mapping) for x in v)
+
+
+def max_binder(v) -> int:
+    m = 0
+    if isinstance(v, tuple) and v:
+        if v[0] in ("bv", "idx", "first", "acc", "comp", "fold") and len(v) > 1 and isinstance(v[1], int):
+            m = v[1]
+        for x in v:
+            m = max(m, max_binder(x))
+    return m
+
+
+def _filtered_base(seq):
+    """seq as (base, condition on the element, binder) when it is `x for x in base if cond`"""
+    seq = _unwrap_seq(seq)
+    if seq[0] == "comp" and seq[3] == (("bv", seq[1]),):
+        c = C(True)
+        for k in seq[4]:
+            c = mk_and(c, k)
+        return seq[2], c, seq[1]
+    return seq, C(True), None
+
+
 def mk_comp(d, it, items, conds=()):
     items = tuple(items)
     it = _unwrap_seq(it)
+    # (A if c else B) where A and B are filtered views of one sequence: one comprehension with a conditional filter
+    if it[0] == "if":
+        ba, ca, da = _filtered_base(it[2])
+        bb, cb, db = _filtered_base(it[3])
+        if ba == bb and not has(items, "idx") and not has(conds, "idx"):
+            ca = rename_binder(ca, da, d) if da is not None else ca
+            cb = rename_binder(cb, db, d) if db is not None else cb
+            extra = mk_if(it[1], ca, cb)
+            return mk_comp(d, ba, items, tuple(conds) + ((extra,) if extra != C(True) else ()))
+    # a comprehension over a flat-map (generator with nested loops): push the items into the innermost loop
+    if it[0] == "comp" and len(it[3]) == 1 and not it[4] and it[3][0][0] == "spread" and not has(items, "idx") and not has(conds, "idx"):
+        inner = _unwrap_seq(it[3][0][1])
+        fresh = max(max_binder(it), max_binder(items), max_binder(conds), d) + 1
+        items_r = tuple(rename_binder(i, d, fresh) for i in items)
+        conds_r = tuple(rename_binder(c, d, fresh) for c in conds)
+        pushed = mk_comp(fresh, inner, items_r, conds_r)
+        return ("comp", it[1], it[2], (("spread", pushed),), ())
     # a comprehension over an unfiltered one-item comprehension is one comprehension
     if it[0] == "comp" and len(it[3]) == 1 and not it[4] and it[3][0][0] not in ("spread", "when"):
         inner_item = rename_binder(it[3][0], it[1], d)
@@ -253,6 +317,8 @@ def mk_join(sep, seq):
 def mk_not(v):
     if v[0] == "not":
         return v[1]
+    if v[0] == "if" and all(x[0] in ("c", "cmp", "not", "bool", "if") or (x[0] == "call" and x[1] in ("any", "all", "isinstance")) for x in (v[2], v[3])):
+        return mk_if(v[1], mk_not(v[2]), mk_not(v[3]))
     if v[0] == "call" and v[1] in ("any", "all") and len(v[2]) == 1 and v[2][0][0] == "comp" and len(v[2][0][3]) == 1:
         cp = v[2][0]
         return ("call", "all" if v[1] == "any" else "any", (("comp", cp[1], cp[2], (mk_not(cp[3][0]),), cp[4]),), ())
@@ -299,6 +365,16 @@ def mk_if(cond, a, b):
     return ("if", cond, a, b)
 
 
+def mk_anyall(name: str, seq):
+    """any(...) / all(...) over a comprehension; nested any-of-any is flattened"""
+    seq = _unwrap_seq(seq)
+    if seq[0] == "comp" and len(seq[3]) == 1 and not seq[4]:
+        it_ = seq[3][0]
+        if it_[0] == "call" and it_[1] == name and len(it_[2]) == 1 and _unwrap_seq(it_[2][0])[0] == "comp":
+            seq = ("comp", seq[1], seq[2], (("spread", _unwrap_seq(it_[2][0])),), ())
+    return ("call", name, (seq,), ())
+
+
 def mk_or(a, b):
     return mk_not(mk_and(mk_not(a), mk_not(b)))
 
@@ -323,7 +399,14 @@ def mk_and(a, b):
             items.extend(v[2])
         else:
             items.append(v)
-    return ("bool", "and", tuple(items))
+    uniq = []
+    for v in items:
+        if v not in uniq:
+            uniq.append(v)
+    uniq.sort(key=repr)
+    if len(uniq) == 1:
+        return uniq[0]
+    return ("bool", "and", tuple(uniq))
 
 
 def mk_cmp(op, a, b):
@@ -360,6 +443,27 @@ def mk_cmp(op, a, b):
     if op in ("in", "not in") and a[0] == "c" and b[0] == "dict" and all(k[0] == "c" for k, _ in b[1]):
         r = any(k == a for k, _ in b[1])
         return C(r if op == "in" else not r)
+    if op in ("in", "not in"):
+        # membership in set(U) / frozenset(U) / list(U) is membership in U; membership distributes over a conditional
+        while b[0] == "call" and b[1] in ("set", "frozenset", "list", "tuple") and len(b[2]) == 1 and not b[3]:
+            b = _unwrap_seq(b[2][0])
+        b = _unwrap_seq(b)
+        if (b[0] == "call" and b[1] in ("set", "frozenset", "list", "tuple", "dict") and not b[2] and not b[3]) or b in (("list", ()), ("dict", ())):
+            return C(op == "not in")
+        if b[0] == "if":
+            return mk_if(b[1], mk_cmp(op, a, b[2]), mk_cmp(op, a, b[3]))
+        if b[0] == "mcall" and b[2] == "keys" and not b[3]:
+            b = b[1]
+        parts = None
+        if b[0] == "op" and b[1] == "|":
+            parts = [mk_cmp("in", a, b[2]), mk_cmp("in", a, b[3])]
+        elif b[0] == "list" and b[1] and (any(i[0] == "spread" for i in b[1]) or (len(b[1]) <= 4 and a[0] != "c")) and not any(i[0] == "when" for i in b[1]):
+            parts = [mk_cmp("in", a, i[1]) if i[0] == "spread" else mk_cmp("==", a, i) for i in b[1]]
+        if parts is not None:
+            r = parts[0]
+            for q in parts[1:]:
+                r = mk_or(r, q)
+            return r if op == "in" else mk_not(r)
     # a regular-expression match object is falsy exactly when it is None
     if b == NONE and op in ("is", "is not", "==", "!=") and a[0] == "mcall" and a[2] in ("match", "search", "fullmatch"):
         return a if op in ("is not", "!=") else mk_not(a)
@@ -687,6 +791,13 @@ class AV:
         if isinstance(st, ast.Expr):
             if isinstance(st.value, ast.Constant):
                 return
+            if isinstance(st.value, (ast.Yield, ast.YieldFrom)) and "<yield>" in fr.env and _is_seq(fr.env["<yield>"]):
+                cur = fr.env["<yield>"]
+                if isinstance(st.value, ast.Yield):
+                    fr.env["<yield>"] = mk_list(_items(cur) + (self._ev(st.value.value, fr) if st.value.value is not None else NONE,))
+                else:
+                    fr.env["<yield>"] = mk_list(_items(cur) + (("spread", self._ev(st.value.value, fr)),))
+                return
             v = self._effect(st.value, fr)
             if isinstance(v, tuple) and has(v, "raise"):
                 return _lift_raise(v)[0]
@@ -844,11 +955,11 @@ class AV:
         if isinstance(r, tuple) and r and r[0] == "pret" and not has(r, "acc"):
             # the body returns r[2] for an element satisfying r[1]: the loop returns it if any element does
             if not (has(r[2], "bv") or has(r[2], "idx") or has(r[2], "first")):
-                pret = ("pret", ("call", "any", (mk_comp(d, it, (r[1],)),), ()), r[2])
+                pret = ("pret", mk_anyall("any", mk_comp(d, it, (r[1],))), r[2])
                 r = _FALL
             elif r[2][0] != "raise":
                 # the value of the first element that satisfies the condition
-                pret = ("pret", ("call", "any", (mk_comp(d, it, (r[1],)),), ()), ("sub", mk_comp(d, it, (r[2],), (r[1],)), C(0)))
+                pret = ("pret", mk_anyall("any", mk_comp(d, it, (r[1],))), ("sub", mk_comp(d, it, (r[2],), (r[1],)), C(0)))
                 r = _FALL
         jumps = "<jump>" in inner.env or not (r is _FALL or r is _CONT) or any(isinstance(n, ast.Break) for s_ in st.body for n in walk_no_nested(s_, include_self=True)) or (bool(st.orelse) and run_else)
         tnames = set(_target_names(st.target))
@@ -1074,6 +1185,15 @@ class AV:
                 key = self._ev(node.func.value.slice, fr)
                 arg = self._ev(node.args[0], fr)
                 fr.env[name] = mk_list(_items(cur) + (("kadd", key, arg),))
+                return
+        if isinstance(node, ast.Call) and isinstance(node.func, ast.Attribute) and node.func.attr in ("add", "append") and len(node.args) == 1 and isinstance(node.func.value, ast.Call) and isinstance(node.func.value.func, ast.Attribute) and node.func.value.func.attr == "setdefault" and isinstance(node.func.value.func.value, ast.Name) and node.func.value.func.value.id in fr.env and len(node.func.value.args) == 2:
+            # D.setdefault(k, set()).add(v) is D[k].add(v) on a mapping with empty defaults
+            name = node.func.value.func.value.id
+            dflt = self._ev(node.func.value.args[1], fr)
+            cur = _as_events(fr.env[name])
+            if cur is not None and dflt in (("list", ()), ("dict", ()), ("call", "set", (), ()), ("call", "frozenset", (), ())):
+                key = self._ev(node.func.value.args[0], fr)
+                fr.env[name] = mk_list(_items(cur) + (("kadd", key, self._ev(node.args[0], fr)),))
                 return
         v = self._ev(node, fr)
         return v
@@ -1321,6 +1441,10 @@ class AV:
                 return mk_list(_spread_items(a) + _spread_items(b))
             if _is_str(a) or _is_str(b):
                 return mk_s(s_parts(a) + s_parts(b))
+        if sym == "-" and a[0] == "call" and a[1] in ("set", "frozenset") and len(a[2]) == 1 and not a[3]:
+            # set(A) - B is {x for x in A if x not in B}
+            d_ = max(max_binder(a), max_binder(b)) + 1
+            return mk_comp(d_, a[2][0], (("bv", d_),), (mk_cmp("not in", ("bv", d_), b),))
         if a[0] == "c" and b[0] == "c":
             try:
                 return C({"+": lambda: a[1] + b[1], "-": lambda: a[1] - b[1], "*": lambda: a[1] * b[1], "/": lambda: a[1] / b[1], "%": lambda: a[1] % b[1], "**": lambda: a[1] ** b[1], "//": lambda: a[1] // b[1]}[sym]())
@@ -1447,7 +1571,12 @@ class AV:
             if name == "dict" and not args:
                 return ("dict", tuple((C(k), v) for k, v in kwargs))
             if name == "dict" and len(args) == 1 and not kwargs:
-                ev_ = _pairs_to_events(_unwrap_seq(args[0]))
+                a0 = args[0]
+                if a0[0] == "list" and a0[1] and all(i[0] in ("kv", "kadd") or (i[0] == "spread" and has(i, "kv") or has(i, "kadd")) for i in a0[1]):
+                    return a0  # dict(<mapping under construction>) is that mapping
+                if a0[0] == "comp" and (has(a0[3], "kv") or has(a0[3], "kadd")):
+                    return a0
+                ev_ = _pairs_to_events(_unwrap_seq(a0))
                 if ev_[0] == "list":
                     return ev_
             if name == "len" and len(args) == 1:
@@ -1466,6 +1595,13 @@ class AV:
                     args = (args[1],)
                 if name in ("zip", "enumerate", "reversed", "sorted", "map", "filter", "sum", "min", "max", "any", "all", "set", "frozenset", "iter"):
                     args = tuple(_unwrap_seq(a) for a in args)
+                if name in ("any", "all") and len(args) == 1 and not kwargs:
+                    return mk_anyall(name, args[0])
+                if False:
+                    # any(any(c for y in Y) for x in X) is any over the flattened sequence
+                    it_ = args[0][3][0]
+                    if it_[0] == "call" and it_[1] == name and len(it_[2]) == 1 and it_[2][0][0] == "comp":
+                        args = (("comp", args[0][1], args[0][2], (("spread", it_[2][0]),), ()),)
                 if name == "reduce":
                     pass
                 return ("call", name, tuple(args), tuple(sorted(kwargs)))
@@ -1625,8 +1761,7 @@ class AV:
         a = callee.node.args
         if any(x[0] == "spread" for x in args) or any(k == "**" for k, _ in kwargs):
             return None
-        if any(isinstance(x, (ast.Yield, ast.YieldFrom)) for x in ast.walk(callee.node)):
-            return None
+        is_gen = any(isinstance(x, (ast.Yield, ast.YieldFrom)) for x in walk_no_nested(callee.node))
         params = [x.arg for x in a.posonlyargs + a.args]
         env = {}
         pos = list(args)
@@ -1662,6 +1797,13 @@ class AV:
                 else:
                     return None
         sub = Frame(callee, callee.rel, env, fr.depth + 1, fr.binder)
+        if is_gen:
+            # a generator is the sequence of the values it yields
+            sub.env["<yield>"] = ("list", ())
+            r = self._body(callee.node.body, sub)
+            if not (r is _FALL or r is None or r == NONE):
+                return unk("generator with an exit that is not understood")
+            return sub.env.get("<yield>", unk("generator"))
         r = self._body(callee.node.body, sub)
         return self._finish(r, sub)
 
@@ -1720,7 +1862,8 @@ class AV:
         env.update(args or {})
         fr = Frame(f, f.rel, env, 0, 0)
         r = self._body(f.node.body, fr)
-        return self._finish(r, fr), fr.env
+        out_env = {k: (canon_binders(x) if isinstance(x, tuple) and not k.startswith("<") else x) for k, x in fr.env.items()}
+        return canon_binders(self._finish(r, fr)), out_env
 
 
 class _Closure:
@@ -1902,6 +2045,10 @@ def _assigned(st) -> list[str]:
             out.append(n.value.id)
         elif isinstance(n, ast.Call) and isinstance(n.func, ast.Attribute) and isinstance(n.func.value, ast.Subscript) and isinstance(n.func.value.value, ast.Name) and n.func.attr in ("append", "extend", "add", "update"):
             out.append(n.func.value.value.id)
+        elif isinstance(n, ast.Call) and isinstance(n.func, ast.Attribute) and n.func.attr == "setdefault" and isinstance(n.func.value, ast.Name):
+            out.append(n.func.value.id)
+        elif isinstance(n, (ast.Yield, ast.YieldFrom)):
+            out.append("<yield>")
     return out
 
 
